@@ -256,7 +256,7 @@ the composition of their transformations; otherwise it raises `LenaTypeError` -/
 theorem mkSequence_ok (args : List (Element α)) (h : okAll args) :
     ∃ s, mkSequence args = .ok s ∧ s.run = denAll args ∧ s.nargs = args.length := by
   obtain ⟨ss, hss⟩ := (convertAll_ok_iff (dataSeq args)).2 ((okAll_iff_dataSeq args).1 h)
-  refine ⟨{ nargs := args.length, stored := ss }, by simp [mkSequence, hss], ?_, rfl⟩
+  refine ⟨{ nargs := args.length, stored := ss, argVals := args.filterMap (·.asValue) }, by simp [mkSequence, hss], ?_, rfl⟩
   exact convertAll_run _ _ hss
 
 theorem mkSequence_not_ok (args : List (Element α)) (h : ¬ okAll args) :
